@@ -474,6 +474,17 @@ static void pair_inspect(htp_connp_t *c, hx_obs *o, void *ctx) {
             if (b->n != strlen(wb) || memcmp(b->p, wb, b->n)) hx_verdict_add("C04", "pairing_body", "%s: transaction %d got a response body that is not %s", PT.desc, i, wb);
         }
         if (tx->request_progress != HTP_REQUEST_COMPLETE || tx->response_progress != HTP_RESPONSE_COMPLETE) hx_verdict_add("C04", "incomplete", "%s: transaction %d not complete (%d/%d)", PT.desc, i, tx->request_progress, tx->response_progress);
+        /* the start lines byte for byte (every byte of both streams exactly once, whatever the hand-overs were) */
+        if (tx->response_line && bstr_cmp_c(tx->response_line, "HTTP/1.1 200 OK") != 0 && bstr_cmp_c(tx->response_line, "HTTP/1.1 404 NF") != 0) {
+            static hx_buf e; hb_reset(&e); hb_esc(&e, bstr_ptr(tx->response_line), bstr_len(tx->response_line)); hb_term(&e);
+            hx_verdict_add("C04", "status_line", "%s: transaction %d status line reported as \"%s\"", PT.desc, i, (char *) e.p);
+            hx_verdict_add("C09", "resume_bytes", "%s: transaction %d status line reported as \"%s\": resuming at the reported count did not continue the stream exactly", PT.desc, i, (char *) e.p);
+        }
+        if (tx->request_line) { char wl[40]; int m = snprintf(wl, sizeof wl, " /id-%d HTTP/1.1", i + 1); size_t ll = bstr_len(tx->request_line);
+            if (ll < (size_t) m + 3 || memcmp(bstr_ptr(tx->request_line) + ll - (size_t) m, wl, (size_t) m) != 0 || (memcmp(bstr_ptr(tx->request_line), "GET", 3) && memcmp(bstr_ptr(tx->request_line), "POST", 4))) {
+                static hx_buf e; hb_reset(&e); hb_esc(&e, bstr_ptr(tx->request_line), ll); hb_term(&e);
+                hx_verdict_add("C04", "request_line", "%s: transaction %d request line reported as \"%s\"", PT.desc, i, (char *) e.p);
+                hx_verdict_add("C09", "resume_bytes", "%s: transaction %d request line reported as \"%s\": resuming at the reported count did not continue the stream exactly", PT.desc, i, (char *) e.p); } }
     }
     int got = (c->conn->flags & HTP_CONN_PIPELINED) != 0;
     if (got != PT.expect_pipelined) {
@@ -691,6 +702,19 @@ static void tunnel_inspect(htp_connp_t *c, hx_obs *o, void *ctx) {
             if (!tx || !tx->request_uri || bstr_cmp_c(tx->request_uri, want) != 0) hx_verdict_add("C16", "resume_uri", "%s: transaction %zu is not request %s (a byte was skipped or parsed twice)", TT.desc, i, want);
             char ws[8]; snprintf(ws, sizeof ws, "%d", 210 + (int) i);
             if (tx && tx->response_status_number != 210 + (int) i) hx_verdict_add("C16", "resume_response", "%s: transaction %zu response status %d, expected %s", TT.desc, i, tx->response_status_number, ws);
+            /* the lines themselves, byte for byte: a stream that is resumed at the reported count carries every byte exactly once */
+            char wl[40]; snprintf(wl, sizeof wl, "HTTP/1.1 %d %c", 210 + (int) i, i == 1 ? 'A' : 'B');
+            if (tx && tx->response_line && bstr_cmp_c(tx->response_line, wl) != 0) {
+                static hx_buf e; hb_reset(&e); hb_esc(&e, bstr_ptr(tx->response_line), bstr_len(tx->response_line)); hb_term(&e);
+                hx_verdict_add("C16", "resume_response_line", "%s: transaction %zu status line reported as \"%s\", sent \"%s\" (a byte was skipped or taken in twice)", TT.desc, i, (char *) e.p, wl);
+                hx_verdict_add("C09", "resume_bytes", "%s: transaction %zu status line reported as \"%s\", sent \"%s\": resuming at the reported count did not continue the stream exactly", TT.desc, i, (char *) e.p, wl);
+            }
+            snprintf(wl, sizeof wl, "GET /t%zu HTTP/1.1", i);
+            if (tx && tx->request_line && bstr_cmp_c(tx->request_line, wl) != 0) {
+                static hx_buf e; hb_reset(&e); hb_esc(&e, bstr_ptr(tx->request_line), bstr_len(tx->request_line)); hb_term(&e);
+                hx_verdict_add("C16", "resume_request_line", "%s: transaction %zu request line reported as \"%s\", sent \"%s\" (a byte was skipped or taken in twice)", TT.desc, i, (char *) e.p, wl);
+                hx_verdict_add("C09", "resume_bytes", "%s: transaction %zu request line reported as \"%s\", sent \"%s\": resuming at the reported count did not continue the stream exactly", TT.desc, i, (char *) e.p, wl);
+            }
         }
         if (qcons != TT.qlen) hx_verdict_add("C16", "resume_consumed", "%s: request side consumed %zu of %zu bytes", TT.desc, qcons, TT.qlen);
         if (c->in_status == HTP_STREAM_ERROR || c->out_status == HTP_STREAM_ERROR) hx_verdict_add("C16", "resume_error", "%s: a direction ended in ERROR (%d/%d)", TT.desc, c->in_status, c->out_status);
